@@ -203,6 +203,138 @@ def _chunk(payload):
     return out
 
 
+QUEUED = r"""
+import sys, os, signal, time
+sys.path.insert(0, sys.argv[1])
+from aiuti.filelock import FileLock
+path, role, reent = sys.argv[2], sys.argv[3], sys.argv[4] == '1'
+l = FileLock(path, reentrant=reent)
+def say(x):
+    sys.stdout.write(x + '\n'); sys.stdout.flush()
+if role == 'holder':
+    l.acquire()
+    if reent:
+        l.acquire()
+    say('held')
+    sys.stdin.readline()                    # 'die'
+    os.kill(os.getpid(), signal.SIGKILL)
+else:
+    say('start')
+    l.acquire()                             # blocking, no time-out: parks in the OS lock queue
+    say('got')
+    sys.stdin.readline()                    # 'release'
+    l.release()
+    say('released')
+"""
+
+
+def _readline(proc, timeout):
+    """One line of a child's stdout within `timeout` seconds, else None."""
+    import select
+    r, _, _ = select.select([proc.stdout], [], [], timeout)
+    return proc.stdout.readline().strip() if r else None
+
+
+def _waiting_in_flock(pids, timeout=2.0):
+    """True once every pid shows up as a blocked waiter (`->`) in /proc/locks; best effort."""
+    end = time.time() + timeout
+    while time.time() < end:
+        try:
+            with open('/proc/locks') as f:
+                blocked = {int(x.split()[5]) for x in f if '->' in x and len(x.split()) > 5 and x.split()[5].isdigit()}
+        except (OSError, ValueError):
+            blocked = set()
+        if all(p in blocked for p in pids):
+            return True
+        time.sleep(0.01)
+    return False
+
+
+def queued_survivors(out, reent):
+    """A holder dies while TWO contenders are already parked in blocking acquires: exactly one of them gets the
+    lock; the other only after the first released (mutual exclusion among the survivors), and promptly."""
+    work = F.mkworkdir()
+    procs = []
+    case = {'part': 'queued-survivors', 'reentrant': reent}
+    mark(case)
+    out.evaluations += 1
+
+    def spawn(role):
+        p = subprocess.Popen([sys.executable, '-u', '-c', QUEUED, REPO, os.path.join(work, 'q.lock'), role,
+                              '1' if reent else '0'], stdin=subprocess.PIPE, stdout=subprocess.PIPE,
+                             stderr=subprocess.PIPE, text=True)
+        procs.append(p)
+        return p
+    try:
+        h = spawn('holder')
+        if _readline(h, 20) != 'held':
+            out.count('queued-survivors:setup-failed')
+            return
+        b, c = spawn('cont'), spawn('cont')
+        for p in (b, c):
+            _readline(p, 20)                # 'start'
+        parked = _waiting_in_flock([b.pid, c.pid])
+        if not parked:
+            time.sleep(0.3)
+        out.count('queued-survivors:parked' if parked else 'queued-survivors:parked-unconfirmed')
+        h.stdin.write('die\n')
+        h.stdin.flush()
+        h.wait(timeout=20)
+        t0 = time.time()
+        first = None
+        while time.time() - t0 < 5 and first is None:
+            for p in (b, c):
+                if _readline(p, 0.02) == 'got':
+                    first = p
+                    break
+        if first is None:
+            out.concrete.append({'case': case, 'what': 'the holder was SIGKILLed with two contenders parked in blocking '
+                                 'acquires: neither of them obtained the lock within 5 s',
+                                 'signature': {'kind': 'stuck-after-kill', 'part': 'queued-survivors'}})
+            return
+        out.extra['queued_survivor_acquire_s'] = round(time.time() - t0, 4)
+        other = c if first is b else b
+        if _readline(other, 1.0) == 'got':
+            out.concrete.append({'case': case, 'what': 'the holder was SIGKILLed with two contenders parked in blocking '
+                                 'acquires: BOTH survivors then held the lock at once (the second acquired while the '
+                                 'first had not released)',
+                                 'signature': {'kind': 'overlap', 'part': 'queued-survivors'}})
+            return
+        first.stdin.write('release\n')
+        first.stdin.flush()
+        if _readline(other, 5.0) != 'got':
+            out.concrete.append({'case': case, 'what': 'after the first survivor released, the second survivor did not '
+                                 'obtain the lock within 5 s',
+                                 'signature': {'kind': 'stuck-after-kill', 'part': 'queued-survivors-second'}})
+            return
+        other.stdin.write('release\n')
+        other.stdin.flush()
+        out.traces_validated += 1
+        out.fingerprints.add(fingerprint(case))
+    finally:
+        for p in procs:
+            try:
+                p.kill()
+                p.communicate(timeout=10)
+            except Exception:  # noqa
+                pass
+        F.rmworkdir(work)
+
+
+def _chunk_queued(payload):
+    logging.disable(logging.CRITICAL)
+    out = Outcome()
+    for reent in payload[1]:
+        queued_survivors(out, reent)
+    return out
+
+
+def _dispatch(payload):
+    if payload[0] == 'queued':
+        return _chunk_queued(payload)
+    return _chunk(payload)
+
+
 def total_lines(script):
     work = F.mkworkdir()
     try:
@@ -228,7 +360,8 @@ def run(ctx):
                     chunks.append((script, part, ncont, ctx.seed + g))
         if ctx.quick:
             chunks.append((script, idx[::7], 2, ctx.seed))
-    out = run_chunks(_chunk, chunks, 8 if ctx.quick else ctx.workers, limit_s=240 if ctx.quick else 1800)
+    chunks += [('queued', [False]), ('queued', [True])] if ctx.quick else [('queued', [False, True])] * 8
+    out = run_chunks(_dispatch, chunks, 8 if ctx.quick else ctx.workers, limit_s=240 if ctx.quick else 1800)
     out.exhaustive = True
     return out
 
@@ -239,6 +372,10 @@ def search(ctx, outcome):
 
 def replay(ctx, payload):
     case = payload.get('case') or (payload.get('first_differing_case') or {}).get('case')
+    if case.get('part') == 'queued-survivors':
+        out = Outcome()
+        queued_survivors(out, case['reentrant'])
+        return {'case': case, 'violations': [c['what'] for c in out.concrete], 'fails': bool(out.concrete)}
     from aiuti.filelock import FileLock
     work = F.mkworkdir()
     try:
